@@ -310,6 +310,11 @@ var constStages = []struct{ name, expr string }{
 	{"map-member", "{l:[1,2,3,4].map(e->e*2)}.l"},
 	{"nested", "[[2,4,6,8].map(e->e)][0]"},
 	{"numbers", "numbers(5).skip(1).map(e->e*2)"},
+	// stages over a stage whose producer uses the stack it is handed
+	{"concat-of-stack-stages", "[1,2].number((n,e)->n+e+1)+[1,2,3].combine((x,y)->x+y+3)"},
+	{"top-of-stack-stage", "[2,3,4,5,9].number((n,e)->n+e).top(4)"},
+	{"skip-of-stack-stage", "[9,1,2,3,4].number((n,e)->n+e).skip(1)"},
+	{"map-of-stack-stage", "[2,3,4,5].number((n,e)->n+e).map(e->e)"},
 }
 
 // consumers: body of (l,k)->…; l is the shared constant, k the argument
